@@ -499,5 +499,7 @@ pub fn run(tier: &str, seed: u64, dir: &str) {
     sharma_table_selfcheck(&mut out);
     run_t!(&mut out, &mut rng, f64, thorough);
     run_t!(&mut out, &mut rng, f32, thorough);
+    // coverage audit: the deprecated entry points, the remaining macro invocations and non-default type parameters (c09_more.rs)
+    crate::c09_more::run_more(&mut out, &mut rng, thorough);
     out.finish(dir, "");
 }
